@@ -419,6 +419,26 @@ func (g *Gen) callInterface(e *Ev, fn *types.Func, recv Term, args []Term, n *as
 	return e.dispatch(fn, sig, recv, args, n, func(k int) (int, *types.Func, Term) { return arms[k].tag, arms[k].fn, arms[k].recv }, len(arms))
 }
 
+// hasContractedImplementer: does a concrete type of this package implement iface with a method
+// `name` that has a contract (the arms callInterface would dispatch over)?
+func (g *Gen) hasContractedImplementer(iface *types.Interface, name string) bool {
+	for _, ct := range g.concreteTypes() {
+		if !types.Implements(ct, iface) {
+			continue
+		}
+		obj, _, _ := types.LookupFieldOrMethod(ct, false, g.P.Pkg.Types, name)
+		m, ok := obj.(*types.Func)
+		if !ok || g.C.forFunc(funcKeyOf(m)) == nil {
+			continue
+		}
+		if _, isIface := m.Type().(*types.Signature).Recv().Type().Underlying().(*types.Interface); isIface {
+			continue
+		}
+		return true
+	}
+	return false
+}
+
 // dispatch merges the per-implementer calls: each arm is evaluated under the guard "tag == arm".
 func (e *Ev) dispatch(fn *types.Func, sig *types.Signature, recv Term, args []Term, n *ast.CallExpr, arm func(int) (int, *types.Func, Term), k int) Term {
 	g := e.g()
